@@ -395,6 +395,10 @@ def run(chk):
     nl = c16more.limits_rule(chk, db, "C16-D14.limits")
     chk.floor("C16-D14.limits", nl, 8, "library calls with a level-limits parameter")
     nrj = c16more.rejected_rule(chk, db, "C16-D15.rejected")
+    nrd = c16more.refine_dispatch_rule(chk, db, "C16-D17.refine")
+    chk.floor("C16-D17.refine", nrd, 1, "family dispatch of -refine")
+    nct = c16more.contour_rule(chk, db, "C16-D16.contour")
+    chk.floor("C16-D16.contour", nct, 5, "comparisons with the enumerator type_curved")
     chk.floor("C16-D15.rejected", nrj, 3, "uses of rejected option data")
     nlay = c16more.coeff_layout_rule(chk, db, "C16-D12.coefflayout")
     chk.floor("C16-D12.coefflayout", nlay, 2, "copy statements of the writer of Fourier coefficients")
